@@ -499,6 +499,61 @@ def encodeState {α : Type} (r : Reg) (isMutable : String → Bool) (state : For
   let vars ← unflatten (dictOfEntries (es.filter fun e => isMutable (e.1.headD "")))
   pure (r', vars)
 
+/-! ### type buckets of `_update_variables` -/
+
+/-- the class hierarchy below `Variable`: for every Variable class the Variable classes in its MRO, the
+class itself included (`_variable_parents_count(t)` is the length of this list) -/
+structure Hier where
+  mro : VType → List VType
+
+/-- `issubclass(s, t)` (what the `OfType(t)` filter of `nnx.split` tests on a Variable of type `s`) -/
+def Hier.isSub (h : Hier) (s t : VType) : Bool := decide (t ∈ h.mro s)
+
+def Hier.count (h : Hier) (t : VType) : Nat := (h.mro t).length
+
+def insertType (h : Hier) (t : VType) : List VType → List VType
+  | [] => [t]
+  | a :: r => if h.count t ≤ h.count a then a :: insertType h t r else t :: a :: r
+
+/-- `bridge.variables.sort_variable_types`: most derived first -/
+def sortVariableTypes (h : Hier) (types : List VType) : List VType := types.foldr (insertType h) []
+
+/-- `nnx.split(module, *types)`: a Variable goes to the first type in the list it is an instance of -/
+def bucketOf (h : Hier) (sorted : List VType) (t : VType) : Option VType :=
+  sorted.find? fun f => h.isSub t f
+
+/-- the exact types occurring in a state (`set(jax.tree.leaves(... x.type ...))`) -/
+def typesOf {α : Type} (state : Forest (NVar α)) : List VType :=
+  ((flattenF state).map fun pv => pv.2.vtype).eraseDups
+
+/-- one entry written by `_update_variables`: the collection is named after the *bucket* the Variable
+fell into; the Variable itself (its own type included, for `NNXMeta`) is converted as it is -/
+def linenEntryB {α : Type} (h : Hier) (sorted : List VType) (r : Reg) (pv : Path × NVar α) :
+    Except Err (Reg × (Path × LBox α)) :=
+  match bucketOf h sorted pv.2.vtype with
+  | none => .error .notRegistered      -- cannot happen: the Variable's own type is in the list
+  | some b => do
+      let (r', col) ← r.nameFromType b true
+      let x ← toLinenVar pv.2
+      pure (r', (col :: pv.1, x))
+
+def linenEntriesB {α : Type} (h : Hier) (sorted : List VType) : Reg → List (Path × NVar α) →
+    Except Err (Reg × List (Path × LBox α))
+  | r, [] => .ok (r, [])
+  | r, pv :: rest => do
+      let (r1, e) ← linenEntryB h sorted r pv
+      let (r2, es) ← linenEntriesB h sorted r1 rest
+      pure (r2, e :: es)
+
+/-- `ToLinen._update_variables` with the type buckets spelled out: sort the state's types, split by
+first match, name each bucket after its type, write the mutable ones -/
+def encodeStateTyped {α : Type} (h : Hier) (r : Reg) (isMutable : String → Bool) (state : Forest (NVar α)) :
+    Except Err (Reg × Forest (LBox α)) := do
+  let sorted := sortVariableTypes h (typesOf state)
+  let (r', es) ← linenEntriesB h sorted r (flattenF state)
+  let vars ← unflatten (dictOfEntries (es.filter fun e => isMutable (e.1.headD "")))
+  pure (r', vars)
+
 /-- `ToLinen.__call__`, apply path up to `nnx.merge`: every collection except `nnx` is converted
 leaf by leaf and the per-collection states are merged (`merge_state`: flat union, later wins) -/
 def decodeVars {α : Type} (r : Reg) (vars : Forest (LBox α)) : Except Err (Reg × Forest (NVar α)) := do
